@@ -7,5 +7,7 @@ var verifHarnesses = map[string]func(){
 	"VerifC08Step": VerifC08Step,
 	"VerifC10Caller": VerifC10Caller,
 	"VerifC09": VerifC09,
+	"VerifC11": VerifC11,
+	"VerifC11Step": VerifC11Step,
 	"VerifC10Isolation": VerifC10Isolation,
 }
